@@ -3157,6 +3157,9 @@ class Circuit(Unitary, StateVectorMap, Collection[Operation]):
         if self._gate_info != rhs._gate_info:
             return False
 
+        if self.num_qudits != rhs.num_qudits:
+            return False
+
         for r1, r2 in zip(self.radixes, rhs.radixes):
             if r1 != r2:
                 return False
